@@ -33,6 +33,7 @@ type Config struct {
 	Verbose        bool
 	MaxViolations  int
 	NoopFuncs      func(name string) bool
+	PureFuncs      func(name string) bool
 }
 
 type Violation struct {
@@ -67,20 +68,23 @@ type FuncStat struct {
 }
 
 type Stats struct {
-	Paths      int
-	Outcomes   map[string]int
-	Forks      map[string]int
-	ForkSites  map[string]int
-	Reach      map[string]int
-	AssertSite map[string]int
-	Funcs      map[string]*FuncStat
-	Intrinsics map[string]int
-	Instrs     int64
-	WrapTerms  int
-	Merges     int
-	Asserts    int
-	Obligation int // solver-discharged assertion queries
-	Solver     SolverStats
+	Paths           int
+	Outcomes        map[string]int
+	Forks           map[string]int
+	ForkSites       map[string]int
+	Reach           map[string]int
+	AssertSite      map[string]int
+	Funcs           map[string]*FuncStat
+	Intrinsics      map[string]int
+	Instrs          int64
+	WrapTerms       int
+	Merges          int
+	PureMerges      int
+	PureAborts      int
+	PureMergedPaths int
+	Asserts         int
+	Obligation      int // solver-discharged assertion queries
+	Solver          SolverStats
 }
 
 func newStats() *Stats {
@@ -120,6 +124,9 @@ func (s *Stats) merge(o *Stats) {
 	s.Instrs += o.Instrs
 	s.WrapTerms += o.WrapTerms
 	s.Merges += o.Merges
+	s.PureMerges += o.PureMerges
+	s.PureAborts += o.PureAborts
+	s.PureMergedPaths += o.PureMergedPaths
 	s.Asserts += o.Asserts
 	s.Obligation += o.Obligation
 	s.Solver.Sat += o.Solver.Sat
@@ -159,6 +166,9 @@ type pathCtx struct {
 	reach       map[string]bool
 	obs         []Obs
 	obsRaw      []obsRaw
+	subs        []*subSearch
+	pcSet       map[string]bool
+	pureSkip    map[*ssa.Function]int
 	sigs        map[string]*Term // known-finding signatures declared so far on this path
 	sigOrd      []string
 	asserts     int
@@ -193,9 +203,10 @@ type harnessRun struct {
 }
 
 type Engine struct {
-	Prog *ssa.Program
-	Cfg  Config
-	Fset *token.FileSet
+	Prog      *ssa.Program
+	Cfg       Config
+	Fset      *token.FileSet
+	pureCache sync.Map
 }
 
 func (e *Engine) RunHarness(fn *ssa.Function) *HarnessResult {
@@ -272,7 +283,7 @@ func (e *Engine) worker(h *harnessRun) {
 
 func (e *Engine) runPath(h *harnessRun, solver *Solver, prefix []int, local *Stats) {
 	c := &pathCtx{eng: e, h: h, solver: solver, prefix: prefix, counts: map[string]int{}, conc: map[string]any{},
-		reach: map[string]bool{}, sigs: map[string]*Term{}, atoms: map[string]*atomInfo{}, stats: local}
+		reach: map[string]bool{}, sigs: map[string]*Term{}, atoms: map[string]*atomInfo{}, stats: local, pureSkip: map[*ssa.Function]int{}}
 	i := newInterpreter(e, c)
 	solver.Push()
 	outcome := "ok"
@@ -437,6 +448,49 @@ func (c *pathCtx) assertPC(t *Term) {
 	}
 	c.solver.Assert(t.S)
 	c.pc = append(c.pc, t.S)
+	if len(c.subs) == 0 {
+		if c.pcSet == nil {
+			c.pcSet = map[string]bool{}
+		}
+		c.pcSet[t.S] = true
+	}
+}
+
+// known decides a condition syntactically from literals already asserted on
+// the path (or in the running summaries): +1 implied, -1 refuted, 0 unknown.
+func (c *pathCtx) known(t *Term) int {
+	n := tNot(t).S
+	if c.pcSet[t.S] {
+		return 1
+	}
+	if c.pcSet[n] {
+		return -1
+	}
+	for _, sub := range c.subs {
+		for _, k := range sub.conds {
+			if k.S == t.S {
+				return 1
+			}
+			if k.S == n {
+				return -1
+			}
+		}
+	}
+	return 0
+}
+
+func (c *pathCtx) feasible(a *Term) bool {
+	switch c.known(a) {
+	case 1:
+		return true
+	case -1:
+		return false
+	}
+	switch c.solver.Check(a.S) {
+	case Sat, Unknown:
+		return true
+	}
+	return false
 }
 
 func (c *pathCtx) posString(pos token.Pos) string {
@@ -460,6 +514,9 @@ func trimRepo(f string) string {
 // fork picks one of alts (nil term = unconditional alternative), replaying the
 // decision prefix first and otherwise asking the solver which are feasible.
 func (c *pathCtx) fork(kind string, pos token.Pos, alts []*Term) int {
+	if sub := c.sub(); sub != nil {
+		return c.subFork(sub, kind, pos, alts)
+	}
 	d := len(c.taken)
 	if d < len(c.prefix) {
 		k := c.prefix[d]
@@ -488,8 +545,7 @@ func (c *pathCtx) fork(kind string, pos token.Pos, alts []*Term) int {
 			feas = append(feas, k)
 			continue
 		}
-		switch c.solver.Check(a.S) {
-		case Sat, Unknown:
+		if c.feasible(a) {
 			feas = append(feas, k)
 		}
 	}
@@ -513,6 +569,52 @@ func (c *pathCtx) fork(kind string, pos token.Pos, alts []*Term) int {
 	}
 	c.taken = append(c.taken, k)
 	return k
+}
+
+// subFork is fork inside a pure-callee summary: decisions are local to the summary.
+func (c *pathCtx) subFork(sub *subSearch, kind string, pos token.Pos, alts []*Term) int {
+	if kind == "choice" {
+		panic(pureAbort{"verifrt.Choice inside a summarised callee"})
+	}
+	d := len(sub.taken)
+	take := func(k int) int {
+		if alts[k] != nil && alts[k].S != "true" {
+			c.solver.Assert(alts[k].S)
+			sub.conds = append(sub.conds, alts[k])
+		}
+		sub.taken = append(sub.taken, k)
+		return k
+	}
+	if d < len(sub.prefix) {
+		return take(sub.prefix[d])
+	}
+	var feas []int
+	for k, a := range alts {
+		if a == nil || a.S == "true" {
+			feas = append(feas, k)
+			continue
+		}
+		if a.S == "false" {
+			continue
+		}
+		if k == len(alts)-1 && len(feas) == 0 {
+			feas = append(feas, k)
+			continue
+		}
+		if c.feasible(a) {
+			feas = append(feas, k)
+		}
+	}
+	if len(feas) == 0 {
+		panic(pureAbort{"no feasible alternative"})
+	}
+	for _, j := range feas[1:] {
+		child := make([]int, len(sub.taken)+1)
+		copy(child, sub.taken)
+		child[len(sub.taken)] = j
+		sub.children = append(sub.children, child)
+	}
+	return take(feas[0])
 }
 
 // branch decides a symbolic condition.
@@ -556,6 +658,7 @@ func (c *pathCtx) concretizeInt(pos token.Pos, v value, lo, hi int64) (int64, bo
 }
 
 func (c *pathCtx) newInput(label string, sort Sort, kind string) *Term {
+	c.noEffect("creation of a symbolic input")
 	k := c.counts[label]
 	c.counts[label] = k + 1
 	name := fmt.Sprintf("%s#%d", label, k)
@@ -577,6 +680,7 @@ func (c *pathCtx) newInput(label string, sort Sort, kind string) *Term {
 }
 
 func (c *pathCtx) concreteInput(label string, v any) {
+	c.noEffect("creation of an input")
 	k := c.counts[label]
 	c.counts[label] = k + 1
 	c.conc[fmt.Sprintf("%s#%d", label, k)] = v
@@ -649,6 +753,7 @@ func (c *pathCtx) record(v *Violation) {
 
 // doAssert implements verifrt.Assert.
 func (c *pathCtx) doAssert(cond value, msg string, pos token.Pos, stack []string) {
+	c.noEffect("verifrt.Assert")
 	c.asserts++
 	c.stats.AssertSite[c.posString(pos)]++
 	switch v := cond.(type) {
@@ -678,6 +783,7 @@ func (c *pathCtx) doAssert(cond value, msg string, pos token.Pos, stack []string
 }
 
 func (c *pathCtx) doAssume(cond value) {
+	c.noEffect("verifrt.Assume")
 	switch v := cond.(type) {
 	case bool:
 		if !v {
